@@ -124,6 +124,18 @@ def run(rec, cfg):
             evaluate(rec, t, {})
             evaluate(rec, t, None)
             evaluate(rec, t, {"x": None, "y": 1})
+    from . import _rulecommon as RC
+
+    if cfg.shard == 1 % cfg.nshards:
+        for t in RC.long_texts():
+            try:
+                root = D.parse(t)
+            except Exception:
+                continue
+            names = sorted(S.variables(S.shadow(root)))
+            for mode in ("small-int", "int", "float"):
+                evaluate(rec, root, context_for(rng, names, mode))
+            rec.arm("eval:long-expression")
     fixed = ["(4 + 4) * x^2", "(6 + 9) * 1000000000000000000000", "(12 + 18) * y^3 + 1", "(4 + 6) * x * y", "x^2 * (8 + 12)", "2^64", "3^40", "x^2",
              "2^62 * 4", "2^-3", "x^y", "10^30 * 10^30 + 1", "20! * 20!", "(x + 1)^64", "sgn(x - y) * 2^70"]
     for i in range(n):
